@@ -842,6 +842,21 @@ def mode_contracts(reg):
             raise ops.Unsupported("driver without a loop")
         return loops[0]
 
+    def out_len_ok(lc, n):
+        """length of the output buffer: the message length for a preallocated buffer, 16 * i for a buffer grown block by block"""
+        on, _oa = out_buffer(lc)
+        saved = lc.st
+        try:
+            lc.st = lc.entry
+            on0, _ = out_buffer(lc)
+        finally:
+            lc.st = saved
+        if z3.is_int_value(z3.simplify(on0)) and z3.simplify(on0).as_long() == 0:
+            if lc.i is None:
+                raise ops.Unsupported("growing buffer in a loop without an iteration index")
+            return on == 16 * lc.i
+        return on == n
+
     def env_items(st):
         return list(st.frames[-1].env.items())
 
@@ -879,6 +894,8 @@ def mode_contracts(reg):
             v0 = lc.entry.lookup(nme)
             if v0 is None or lc.st.lookup(nme) is None:
                 continue
+            if lc.i is None:
+                raise ops.Unsupported("loop without an iteration index (while loop): invariants of this pack are stated per iteration")
             cs.append(ops.int_term(lc[nme]) == ops.int_term(v0) + step * lc.i)
         return z3.And(cs) if cs else z3.BoolVal(True)
 
@@ -902,8 +919,7 @@ def mode_contracts(reg):
     def ecb_contract(name, fns):
         def inv(lc):
             n, a = M.arr_of(param(lc, "data"))
-            on, oa = out_buffer(lc)
-            return z3.And(counters_ok(lc), on == n)
+            return z3.And(counters_ok(lc), out_len_ok(lc, n))
 
         def inv_point(lc, j):
             n, a = M.arr_of(param(lc, "data"))
@@ -958,7 +974,7 @@ def mode_contracts(reg):
         def inv(lc):
             n, a, iva, on, oa = parts(lc)
             chained = oa if enc else a
-            cs = [counters_ok(lc), on == n]
+            cs = [counters_ok(lc), out_len_ok(lc, n)]
             ch = chain_local(lc)
             if ch is not None:
                 v = lc[ch]
